@@ -370,6 +370,80 @@ func buildGuard(v ssa.Value, recv ssa.Value, ownFn *ssa.Function) *guardExpr {
 	return nil
 }
 
+// operandHelper: a function  h(cw *CodeWriter, operand <node interface>, cond bool)  (any parameter order) that writes
+// '(' under cond, then operand.WriteTo(cw), then ')' under cond — verified on its SSA form.
+type operandHelper struct {
+	opIdx, condIdx int
+}
+
+var operandHelperCache = map[*ssa.Function]*operandHelper{}
+
+func operandHelperOf(f *ssa.Function, writeRune *ssa.Function) *operandHelper {
+	if f == nil || f.Blocks == nil || f.Pkg == nil || writeRune == nil || f.Pkg != writeRune.Pkg {
+		return nil
+	}
+	if h, ok := operandHelperCache[f]; ok {
+		return h
+	}
+	operandHelperCache[f] = nil
+	h := &operandHelper{opIdx: -1, condIdx: -1}
+	for i, p := range f.Params {
+		switch {
+		case namedIs(p.Type(), "ast", "Expression") || namedIs(p.Type(), "ast", "Node") || namedIs(p.Type(), "ast", "Statement"):
+			h.opIdx = i
+		default:
+			if b, ok := p.Type().Underlying().(*types.Basic); ok && b.Kind() == types.Bool {
+				h.condIdx = i
+			}
+		}
+	}
+	if h.opIdx < 0 || h.condIdx < 0 {
+		return nil
+	}
+	var open, closeC, child ssa.Instruction
+	okShape := true
+	allInstrs(f, func(b *ssa.BasicBlock, _ int, in ssa.Instruction) {
+		call, ok := in.(*ssa.Call)
+		if !ok {
+			return
+		}
+		if call.Call.IsInvoke() && call.Call.Method.Name() == "WriteTo" && call.Call.Value == ssa.Value(f.Params[h.opIdx]) {
+			if child != nil {
+				okShape = false
+			}
+			child = call
+			return
+		}
+		if call.Call.StaticCallee() == writeRune {
+			k, ok := constInt64(call.Call.Args[1])
+			if !ok || (k != '(' && k != ')') {
+				okShape = false
+				return
+			}
+			iff, edge, ok := controllingIf(f, b)
+			if !ok || iff.Cond != ssa.Value(f.Params[h.condIdx]) || !edge {
+				okShape = false
+				return
+			}
+			if k == '(' {
+				open = call
+			} else {
+				closeC = call
+			}
+			return
+		}
+		okShape = false // any other call: not a pure operand writer
+	})
+	if !okShape || open == nil || closeC == nil || child == nil {
+		return nil
+	}
+	if !(instrReachableAfter(open, child) && !instrReachableAfter(child, open) && instrReachableAfter(child, closeC) && !instrReachableAfter(closeC, child)) {
+		return nil
+	}
+	operandHelperCache[f] = h
+	return h
+}
+
 // controllingIf: the innermost If whose true or false edge dominates block b.
 func controllingIf(f *ssa.Function, b *ssa.BasicBlock) (*ssa.If, bool, bool) {
 	var best *ssa.BasicBlock
@@ -518,11 +592,12 @@ func ruleParenGuards(c *Ctx, t *tables) {
 		}
 		// collect guards in the printer
 		type parenWrite struct {
-			call  *ssa.Call
-			open  bool
-			guard *guardExpr
-			cond  ssa.Value
-			edge  bool
+			call   *ssa.Call
+			open   bool
+			guard  *guardExpr
+			cond   ssa.Value
+			edge   bool
+			helper bool // a call of an operand-writing helper (verified to write '(' operand ')' under its condition)
 		}
 		var parens []parenWrite
 		recv := wt.Params[0]
@@ -542,6 +617,35 @@ func ruleParenGuards(c *Ctx, t *tables) {
 				pw.guard = buildGuard(iff.Cond, recv, ownPrec)
 			}
 			parens = append(parens, pw)
+		})
+		// calls of an operand-writing helper  h(cw, <recv>.<field>, <condition>)  count as a guarded '(' , the operand's
+		// WriteTo and a guarded ')' under the condition passed at the call site
+		helperChild := map[*types.Var][]ssa.Instruction{}
+		allInstrs(wt, func(_ *ssa.BasicBlock, _ int, in ssa.Instruction) {
+			call, ok := in.(*ssa.Call)
+			if !ok {
+				return
+			}
+			h := operandHelperOf(call.Call.StaticCallee(), writeRune)
+			if h == nil {
+				return
+			}
+			opArg := call.Call.Args[h.opIdx]
+			if mi, ok := opArg.(*ssa.MakeInterface); ok {
+				opArg = mi.X
+			}
+			u, ok := opArg.(*ssa.UnOp)
+			if !ok {
+				return
+			}
+			fa, ok := u.X.(*ssa.FieldAddr)
+			if !ok || fa.X != ssa.Value(recv) {
+				return
+			}
+			cond := call.Call.Args[h.condIdx]
+			g := buildGuard(cond, recv, ownPrec)
+			parens = append(parens, parenWrite{call: call, open: true, guard: g, cond: cond, edge: true, helper: true}, parenWrite{call: call, open: false, guard: g, cond: cond, edge: true, helper: true})
+			helperChild[fieldOfAddr(fa)] = append(helperChild[fieldOfAddr(fa)], call)
 		})
 		for _, op := range operands {
 			key := fmt.Sprintf("%s.%s", r.node, op.field)
@@ -638,9 +742,10 @@ func ruleParenGuards(c *Ctx, t *tables) {
 					}
 				}
 			})
+			childWrites = append(childWrites, helperChild[fld]...)
 			placed := len(childWrites) > 0
 			for _, pw := range opens {
-				ok := false
+				ok := pw.helper
 				for _, cw := range childWrites {
 					if instrReachableAfter(pw.call, cw) && !instrReachableAfter(cw, pw.call) {
 						ok = true
@@ -649,7 +754,7 @@ func ruleParenGuards(c *Ctx, t *tables) {
 				placed = placed && ok
 			}
 			for _, pw := range closes {
-				ok := false
+				ok := pw.helper
 				for _, cw := range childWrites {
 					if instrReachableAfter(cw, pw.call) && !instrReachableAfter(pw.call, cw) {
 						ok = true
